@@ -228,7 +228,7 @@ class Inventory:
                     ok, detail, desc = self.panic_call(kind, c, f, fa, iv, b, t, args)
                     self.discharge("P-call", f, desc, ok, detail + " [" + why + "]", t["line"], "rule")
                     continue
-                if c in libmodel.SAFE:
+                if libmodel.is_safe(c):
                     continue
                 self.discharge("P-call", f, "unknown external callee %s" % c, False,
                                "no contract in libmodel for this function (fail closed)", t["line"], "rule")
@@ -408,6 +408,27 @@ class Inventory:
                     poss = set(range(base[0], base[1] + 1))
             elif base is not None and 0 <= base[1] - base[0] < 4096:
                 poss = set(range(base[0], base[1] + 1))
+            if poss is None and t.op == "discr":
+                # W-num: `match message { typed arms.., _ => unreachable!() }` after `number()` returned Some:
+                # number() is Some exactly for the variants listed in its own table
+                x = t.args[0]
+                while x.op in ("memval", "mem"):
+                    x = x.args[0]
+                for g2 in fa.guards(p):
+                    c2 = g2[0]
+                    if c2.op == "discr" and c2.args[0].op == "call" and c2.args[0].args[0] == "msg::message::Message::number" \
+                            and g2[1] == "eq" and g2[2] == 1:
+                        recv = c2.args[0].args[1][0]
+                        y = recv
+                        while y.op in ("ref", "memval", "mem"):
+                            y = y.args[0]
+                        if y is x:
+                            import dispatch
+                            from engine import Result
+                            tmp = Result("tmp")
+                            num = dispatch.number_table(self.prog, tmp)
+                            if num is not None and not tmp.violations():
+                                poss = {d for d in num if d is not None}
             if poss is None:
                 continue
             if k == "eq" and v not in poss:
